@@ -128,6 +128,7 @@ var checks = []Check{
 			{Pkg: "proc/redis", Scenarios: []string{"C04/asking"}, Shards: 16, QuickS: 90, ThoroughS: 240},
 			{Pkg: "proc/redis", Scenarios: []string{"C04/pipelined-redirect"}, Shards: 16, QuickS: 60, ThoroughS: 240},
 			{Pkg: "proc/redis", Scenarios: []string{"C04/failover-in-flight"}, Shards: 16, QuickS: 60, ThoroughS: 240},
+			{Pkg: "proc/redis", Scenarios: []string{"C13/histories"}, Shards: 16, QuickS: 90, ThoroughS: 240}, // redirected writes with transparent compression on
 		},
 	},
 	{
@@ -203,6 +204,7 @@ var checks = []Check{
 		Rule:        "distinct = (name, letter case, argument count, strategy, clock step) combinations issued",
 		Assumptions: append([]string{"Redis 5.0 command table with write flags embedded in the harness (written from the redis-server 5.0 command table)", "mini Redis Cluster node logs"}, engineAssumptions...),
 		Jobs: []Job{
+			{Pkg: "proc/redis", Scenarios: []string{"C14/pipelines"}, Shards: 16, QuickS: 60, ThoroughS: 240},
 			{Pkg: "proc/redis", Scenarios: []string{"C14/commands"}, Shards: 12, QuickS: 120, ThoroughS: 240},
 			{Pkg: "proc/redis", Scenarios: []string{"C02/stack-race"}, Race: true, Shards: 1, QuickS: 120, ThoroughS: 240},
 			{Pkg: "proc/redis", Scenarios: []string{"C14/topology"}, Shards: 1, QuickS: 60, ThoroughS: 120},
@@ -218,6 +220,7 @@ var checks = []Check{
 			{Pkg: "proc/redis", Scenarios: []string{"C03/programs"}, Shards: 16, QuickS: 100, ThoroughS: 240},
 			{Pkg: "proc/redis", Scenarios: []string{"C02/stack-race"}, Race: true, Shards: 1, QuickS: 120, ThoroughS: 240},
 			{Pkg: "proc/redis", Scenarios: []string{"C03/values"}, Shards: 16, QuickS: 60, ThoroughS: 240},
+			{Pkg: "proc/redis", Scenarios: []string{"C03/long-sessions"}, Shards: 16, QuickS: 60, ThoroughS: 240},
 			{Pkg: "proc/redis", Scenarios: []string{"C03/refresh-concurrent"}, Shards: 16, QuickS: 60, ThoroughS: 240},
 			{Pkg: "proc/redis", Scenarios: []string{"C01/cold-start"}, Shards: 16, QuickS: 60, ThoroughS: 240},
 		},
@@ -264,6 +267,7 @@ var checks = []Check{
 			{Pkg: "proc/redis", Scenarios: []string{"C12/slots"}, Shards: 1, QuickS: 120, ThoroughS: 240},
 			{Pkg: "proc/redis", Scenarios: []string{"C12/concurrent"}, Shards: 4, QuickS: 60, ThoroughS: 240},
 			{Pkg: "proc/redis", Scenarios: []string{"C12/redirect-learning"}, Shards: 4, QuickS: 60, ThoroughS: 240},
+			{Pkg: "proc/redis", Scenarios: []string{"C14/commands"}, Shards: 12, QuickS: 120, ThoroughS: 240}, // end to end: every forwarded command arrives at the owner of its first key
 		},
 	},
 	{
